@@ -89,7 +89,8 @@ type goRef struct {
 	types    map[string]string            // field ref.key() -> reference struct field type (qualifier = GoPackageName of the defining file)
 	srcIdent map[int]map[string]bool      // file -> identifiers declared at package level / struct fields / consts in the generated source
 	srcField map[int]map[string]string    // file -> "Struct.Field" -> type expression in the generated source
-	imports  map[int]map[string]string    // file -> import alias -> import path
+	imports  map[int]map[string][]string  // file -> import alias -> import paths (protoc-gen-go can emit one alias twice: `_`)
+	declBy   map[string]map[string]bool     // import path -> Go type identifiers declared there
 	pkgOf    map[string]string            // import path -> GoPackageName
 	files    map[int]*protogen.File
 	err      error
@@ -104,7 +105,7 @@ func runProtogen(w wWorld, b *built, param string) *goRef {
 	}
 	req.Parameter = proto.String(param)
 	gr := &goRef{fileIdx: map[string]int{}, names: map[string]string{}, types: map[string]string{}, srcIdent: map[int]map[string]bool{},
-		srcField: map[int]map[string]string{}, imports: map[int]map[string]string{}, pkgOf: map[string]string{}, files: map[int]*protogen.File{}}
+		srcField: map[int]map[string]string{}, imports: map[int]map[string][]string{}, declBy: map[string]map[string]bool{}, pkgOf: map[string]string{}, files: map[int]*protogen.File{}}
 	for i, f := range w.Files {
 		gr.fileIdx[f.Name] = i
 	}
@@ -124,13 +125,22 @@ func runProtogen(w wWorld, b *built, param string) *goRef {
 	}
 	put := func(d protoreflect.Descriptor, kind, name string) { gr.names[refOfDesc(gr.fileIdx, d).key()+"|"+kind] = name }
 	var msg func(m *protogen.Message)
+	decl := func(id protogen.GoIdent) {
+		p := string(id.GoImportPath)
+		if gr.declBy[p] == nil {
+			gr.declBy[p] = map[string]bool{}
+		}
+		gr.declBy[p][id.GoName] = true
+	}
 	enum := func(e *protogen.Enum) {
+		decl(e.GoIdent)
 		put(e.Desc, "enum", e.GoIdent.GoName)
 		for _, v := range e.Values {
 			put(v.Desc, "value", v.GoIdent.GoName)
 		}
 	}
 	msg = func(m *protogen.Message) {
+		decl(m.GoIdent)
 		put(m.Desc, "msg", m.GoIdent.GoName)
 		for _, f := range m.Fields {
 			put(f.Desc, "field", f.GoName)
@@ -185,14 +195,14 @@ func (gr *goRef) parseSource(fi int, src []byte) {
 		gr.err = fmt.Errorf("generated source does not parse: %v", err)
 		return
 	}
-	ids, flds, imps := map[string]bool{}, map[string]string{}, map[string]string{}
+	ids, flds, imps := map[string]bool{}, map[string]string{}, map[string][]string{}
 	for _, im := range af.Imports {
 		p := strings.Trim(im.Path.Value, `"`)
 		alias := p[strings.LastIndex(p, "/")+1:]
 		if im.Name != nil {
 			alias = im.Name.Name
 		}
-		imps[alias] = p
+		imps[alias] = append(imps[alias], p)
 	}
 	for _, d := range af.Decls {
 		switch x := d.(type) {
